@@ -1,8 +1,8 @@
 SPECIFICATION Spec
 CONSTANTS
-  NSET = {1, 2, 3, 4, 6, 8, 16}
+  NSET = {1, 2, 3, 4, 6, 8, 9, 16}
   MAXD = 3
-  B = 2
+  BS = {2, 3, 4}
 INVARIANT AllB
 INVARIANT RoundTrip
 CHECK_DEADLOCK FALSE
